@@ -280,6 +280,9 @@ pub fn scenario(g: &mut G, ctx: &RunCtx) -> RunReport {
         payload: payload.clone(),
         chunk_lens: chunks.iter().map(|c| c.len).collect(),
         chunk_style: styles,
+        chunk_specs: chunks.clone(),
+        last_chunk_line: b"0".to_vec(),
+        lf_line_endings: false,
         garbage: 0,
         declared_len: wire_body.len(),
         script: Script::from_wire(&wire.bytes, &segs, End::Fin),
